@@ -1,6 +1,7 @@
 package meta
 
 import (
+	"errors"
 	"math"
 	"strconv"
 )
@@ -366,7 +367,12 @@ func (em ExposureMode) MarshalText() (text []byte, err error) {
 // UnmarshalText implements the TextUnmarshaler interface that is
 // used by encoding/json
 func (em *ExposureMode) UnmarshalText(text []byte) (err error) {
-	*em = mapStringExposureMode[string(text)]
+	v, ok := mapStringExposureMode[string(text)]
+	if !ok {
+		// includes "Unknown", which String writes for values that are not exposure modes
+		return errors.New("meta: unknown ExposureMode " + strconv.Quote(string(text)))
+	}
+	*em = v
 	return nil
 }
 
